@@ -462,8 +462,14 @@ where
         n: u64,
         m: &AssignedBigUint<F>,
     ) -> Result<AssignedBigUint<F>, Error> {
+        // x^0 % m = 1 % m and x^1 % m = x % m: both need a reduction modulo m
+        // (the square-and-multiply loop below only reduces when it multiplies).
         if n == 0 {
-            return self.assign_fixed_biguint(layouter, BigUint::one());
+            let one = self.assign_fixed_biguint(layouter, BigUint::one())?;
+            return Ok(self.div_rem(layouter, &one, m)?.1);
+        }
+        if n == 1 {
+            return Ok(self.div_rem(layouter, x, m)?.1);
         }
 
         let mut n = n;
